@@ -1,12 +1,18 @@
+import importlib
 import sys
 
 from .framework import run_check
 
-
-def registry():
-    from . import props_reduce as pr
-
-    return {"C01": pr.C01, "C02": pr.C02, "C03": pr.C03, "C05": pr.C05, "C06": pr.C06, "C16": pr.C16, "C20": pr.C20}
+# property id -> "module:Class" (module relative to the harness package)
+PROPS = {
+    "C01": "props_reduce:C01",
+    "C02": "props_reduce:C02",
+    "C03": "props_reduce:C03",
+    "C05": "props_reduce:C05",
+    "C06": "props_reduce:C06",
+    "C16": "props_reduce:C16",
+    "C20": "props_reduce:C20",
+}
 
 
 def main():
@@ -14,11 +20,12 @@ def main():
         print("usage: check <PROPERTY-ID> [--tier quick|thorough] [--seed N] [--replay path]")
         return 2
     pid = sys.argv[1]
-    reg = registry()
-    if pid not in reg:
+    if pid not in PROPS:
         print(f"unknown property {pid}")
         return 2
-    return run_check(reg[pid](), sys.argv[2:])
+    mod, cls = PROPS[pid].split(":")
+    prop = getattr(importlib.import_module("." + mod, __package__), cls)()
+    return run_check(prop, sys.argv[2:])
 
 
 if __name__ == "__main__":
